@@ -375,7 +375,10 @@ def check_transforms(text, parse):
 
     def rename(conv):
         def fn(f):
-            f["name"] = dict(f["name"], value=conv(f["name"]["value"]))
+            try:
+                f["name"] = dict(f["name"], value=conv(f["name"]["value"]))
+            except Exception:
+                pass          # the conversion itself fails on this name: the visitor's failure is what gets reported
         return fn
     for cls, fn in ((T.RemoveFieldAliasesVisitor, no_alias), (T.CamelCaseToSnakeCaseVisitor, rename(camelcase_to_snakecase)),
                     (T.SnakeCaseToCamelCaseVisitor, rename(snakecase_to_camelcase))):
@@ -390,4 +393,53 @@ def check_transforms(text, parse):
         if got != want:
             fails.append(("transform:edits-stay-local", {"text": text, "transform": cls.__name__},
                           "%s changed more (or less) than it documents on %r" % (cls.__name__, text[:120])))
+    return fails
+
+
+def check_cross_kind(text, parse):
+    """a replacement need not be of the kind it replaces (any selection may stand where a field stood, any value where a value stood): the replacement
+    is substituted, ITS children are the ones traversed, and leave is called with it"""
+    fails = []
+    doc = parse(text)
+    rec = Recorder()
+    rec.visit(parse(text))
+    kinds = [type(n).__name__ for k, _t, n in rec.events if k == "enter"]
+    plans = []
+    if "Field" in kinds:
+        plans.append(("Field", lambda n: A.FragmentSpread(name=A.Name(value="CrossKind"), directives=[A.Directive(name=A.Name(value="d"), arguments=[])])))
+        plans.append(("Field", lambda n: A.InlineFragment(type_condition=None, directives=[], selection_set=A.SelectionSet(selections=[A.Field(name=A.Name(value="inner"))]))))
+    if "InlineFragment" in kinds:
+        plans.append(("InlineFragment", lambda n: A.Field(name=A.Name(value="leaf"))))
+    if "IntValue" in kinds:
+        plans.append(("IntValue", lambda n: A.ListValue(values=[A.StringValue(value="s"), A.ObjectValue(fields=[A.ObjectField(name=A.Name(value="k"), value=A.NullValue())])])))
+    for kind, make in plans:
+        d = parse(text)
+
+        class V(ASTVisitor):
+            def __init__(self):
+                self.done, self.events, self.rep = False, [], None
+
+            def enter(self, node):
+                if not self.done and type(node).__name__ == kind:
+                    self.done, self.rep = True, make(node)
+                    return self.rep
+                self.events.append(("enter", node))
+                return node
+
+            def leave(self, node):
+                self.events.append(("leave", node))
+        v = V()
+        try:
+            v.visit(d)
+        except Exception as e:
+            fails.append(("visit:replace-other-kind", {"text": text, "replaced": kind, "by": type(v.rep).__name__ if v.rep is not None else None, "exc": type(e).__name__},
+                          "replacing a %s by a %s made the traversal raise %r" % (kind, type(v.rep).__name__, e)))
+            continue
+        inside = [n for n in descendants(v.rep)]
+        entered = {id(n) for k, n in v.events if k == "enter"}
+        if any(id(n) not in entered for n in inside):
+            fails.append(("visit:replace-other-kind", {"text": text, "replaced": kind, "by": type(v.rep).__name__, "exc": None},
+                          "children of the replacement %s were not traversed" % type(v.rep).__name__))
+        elif not any(k == "leave" and n is v.rep for k, n in v.events):
+            fails.append(("visit:replace-other-kind", {"text": text, "replaced": kind, "by": type(v.rep).__name__, "exc": None}, "leave() was not called with the replacement"))
     return fails
